@@ -55,20 +55,20 @@ CLAIMED = {
        'an operation on one id leaves every other record untouched; a removed id stays absent under all later operations (dict, disk, cloud); '
        'the redis representation is modelled faithfully, including the known finding (update after remove recreates the hash), proved on a witness. '
        'Tied to the code by op-sequence campaigns on the four real backends (real pyaio files, real redis-py against an in-process RESP server, '
-       'CloudStorage over a fake object store), sequential and with overlapped operations on different ids.',
+       'CloudStorage over a fake object store; DictStorage over plain dicts and over two real shelves, the persistent configuration its documentation names), sequential and with overlapped operations on different ids.',
   ref='6/C15', technique='Lean 4 proof (simulation/refinement between store representations) + differential correspondence vs the four real backends',
   note='The redis server and the cloud object store are stand-ins written from the client library / aws.py source.'),
  'C13': dict(
   text='Lean theorems over Model/Attempt.lean (Queue._attempt / _handle_partial_relay / _retry_later / _perm_fail / _split_by_reply): for every '
        'list of per-recipient failures the bounces have pairwise different replies, every reply has its bounce, a bounce names only and at least one '
        'recipient that failed with its reply, and all failed recipients are named exactly once; for every attempt outcome the bounces name exactly '
-       'the finally-failed recipients; a null-sender message (hence every bounce) never produces a bounce; a factory returning None produces none. '
+       'the finally-failed recipients; a null-sender message (hence every bounce) never produces a bounce; a factory returning None produces none; over the composed queue machine (Model/QueueM.lean, see C01) under every interleaving: null_sender_no_bounce_interleaved, failed_are_bounced_interleaved. '
        'Byte-level bounce content (addressed to the original sender only, reply quoted, original header block/body embedded unchanged, handed to '
        'bounce_queue.enqueue) is checked on the real Bounce/Queue by the campaign; the real Queue is driven through failure histories and compared '
        'round by round with the model.',
   ref='6/C13', technique='Lean 4 proof (grouping lemmas, case analysis over attempt outcomes) + differential correspondence vs real Queue/Bounce histories'),
  'C03': dict(
-  text='PARTIAL (part 1 over sequential histories and storage; part 2 over the scheduler model of C12: storage calls atomic inside a section, spawns that may wait for a slot of a bounded pool, calm announcements). Lean theorems over Model/Attempt.lean + Model/Store.lean: for every valid '
+  text='PARTIAL (storage calls atomic inside a section, spawns that may wait for a slot of a bounded pool, calm announcements). Over the composed queue machine (Model/QueueM.lean, see C01) for every interleaving: handoff_is_for_the_unsettled (whenever a step hands a message to the relay — enqueue\'s own hand-off or a _dequeue task, whatever caused it — the recipients of that attempt are exactly the outstanding ones and none of them was reported delivered or failed for good before) and one_attempt_in_flight_composed. Sequential theorems over Model/Attempt.lean + Model/Store.lean: for every valid '
        'history of delivery attempts (any rounds, recipients, outcomes, backoff) a recipient reported delivered or permanently failed is in no '
        'later attempt; the next attempt is made for exactly the transiently refused recipients; the accumulating index representation of '
        'disk/redis/cloud agrees with the reference store over any number of marking rounds. The real Queue is driven through exhaustive '
@@ -79,16 +79,16 @@ CLAIMED = {
   ref='6/C03', technique='Lean 4 proof (conservation/counting invariant over attempt histories, store refinement) + differential correspondence vs real Queue on 4 backends',
   note='Partial: the interleaving theorem is about the scheduler model of C12 (bounded pools included) under the Calm assumption.'),
  'C01': dict(
-  text='PARTIAL (the ledger over sequential histories; "keeps being retried" over the scheduler model of C12 under its Calm assumption; the two models are not composed into one machine; bounded pools: known finding). Lean theorems over Model/Attempt.lean: for every attempt outcome and every history each accepted recipient '
+  text='PARTIAL (calm environment of C12; storage calls atomic inside a section; bounded pools: the safety statements hold, the stall is a known finding; liveness is stated as: never without a next step). The ledger and the scheduler are ONE transition system now (Model/QueueM.lean: the scheduler state of Model/Sched.lean + what the storage holds for every message + every attempt\'s envelope + the verdict of _attempt + bounces + a ghost ledger; a step of it IS a step of the scheduler model, its two-phase attempt IS Attempt.attempt: step_sched, phases_eq_attempt). Over it, for every interleaving of enqueues, announcements, ticks, scheduler turns, _dequeue tasks, relay answers of any shape, backoff answers, re-queues, removals and flushes: one_disposition (every accepted recipient is counted exactly once in delivered / failed for good / outstanding, in every reachable state), accepted_never_lost (delivered, or failed and named in a bounce quoting its reply when a bounce is produced, or outstanding in a message that is still stored and handed off / in flight / finishing / dequeuing / in the timetable with the loop due to wake by its time), removed_means_final. The sequential theorems over Model/Attempt.lean remain: for every attempt outcome and every history each accepted recipient '
        'is exactly one of delivered / failed for good / still stored; the message is removed only when nobody is outstanding; when the backoff '
        'returns None everybody outstanding is failed; failed recipients of a non-null-sender message are named in a bounce (with C13). The real Queue '
        'is driven through seeded histories mixing None/Reply, mapping, sequence, Transient, Permanent and unexpected exceptions on dict, disk, redis and '
        'cloud backends and compared with the model; the ledger is monitored on the implementation. Known finding: bounded pools can stall the queue. '
-       'Scheduling half (accepted_never_unscheduled, from C12): in every reachable state of the scheduler transition system a stored message the queue '
+       'The composed machine is tied to the code by the scheduler runs of C12 (every label enabled; scheduler state, stored recipients and attempt counters equal at every observation; hand-offs, bounces asked for and recipients reported delivered per message at the end), which this check runs too, with the ledger monitored on what relay, bounce factory and storage saw. Scheduling half (accepted_never_unscheduled, from C12): in every reachable state of the scheduler transition system a stored message the queue '
        'knows is being handed off, in flight, finishing, dequeuing, or in the timetable with the loop due to wake by its time; a due entry enables the '
        'scheduler turn that dispatches it.',
   ref='6/C01', technique='Lean 4 proof (ledger conservation by counting, induction over histories) + differential correspondence vs real Queue on 4 backends',
-  note='Partial: ledger and scheduler are two models tied to the same code, not one composed machine; storage calls atomic inside a section; Calm assumption; pool-exhaustion stall is a known finding.'),
+  note='Partial: Calm assumption and relay contract (per-recipient results answer for exactly the recipients handed over) as explicit hypotheses; storage calls atomic inside a section; pool-exhaustion stall is a known finding; eventual delivery is stated as a safety property (never without an enabled next step).'),
  'C04': dict(
   text='PARTIAL (process death; POSIX rename/unlink atomicity and pickle integrity assumed). Lean theorems over Model/DiskFS.lean (every DiskStorage '
        'operation = a list of atomic file-system effects: temp-file creation, chunk writes, rename, unlink; the process may die after any prefix): '
@@ -179,7 +179,7 @@ CLAIMED = {
        'always-enabled step; every waiting message gets a task; id set emptied), timetable_ids_exact, one_attempt_in_flight. Tied to the code by '
        'replaying, label by label, traces of the real Queue (scheduler started, DictStorage, virtual clock, held relay outcomes, wait() fed by '
        'the harness, holds on store.get / store.write) through the model: every label enabled; now, timetable, id sets, stored timestamps, wake '
-       'flag and scheduler timer equal at every observation point, with unbounded and with bounded store/relay pools (spawns held up on a full pool included).',
+       'flag and scheduler timer equal at every observation point, with unbounded and with bounded store/relay pools (spawns held up on a full pool included). The same traces, with the relay\'s full answers (per-recipient verdicts in mapping / reversed mapping / sequence form, exceptions), are replayed through the composed machine of C01 (Model/QueueM.lean) as long as the run is calm.',
   ref='6/C12', technique='Lean 4 proof (inductive invariant of the scheduler transition system over all interleavings, virtual time) + trace-replay correspondence vs real slimta.queue.Queue under a virtual clock',
   note='Partial: storage calls atomic inside a section (except _retry_later); Calm environment assumption (negation witnessed, known finding); flush waiting for the lock under saturated pools not modelled.'),
  'C02': dict(
